@@ -284,13 +284,16 @@ class Env:
                 if why:
                     break
         kind = "report" if rep == "dest" else (rep if rep else k)
+        if not why and getattr(self, "pending_why", ""):
+            why, self.pending_why = self.pending_why, ""
         return {"u": self.utoken(u), "lv": lv, "k": k, "ty": ty if isinstance(ty, str) else str(ty), "st": st,
                 "f": f, "g": g, "rep": rep, "why": why, "kind": kind}
 
     # -- harness-owned destinations, serializers
     def make_dest(self, d):
         env = self
-        fileobj = io.BytesIO() if d == 1 else None
+        # the file destination writes to a binary file, or (every third program) to a text-mode file: the other JSON path
+        fileobj = (io.StringIO() if getattr(self, "wit", 0) % 3 == 2 else io.BytesIO()) if d == 1 else None
         real = FileDestination(file=fileobj) if d == 1 else None
         if fileobj is not None:
             self.files[d] = fileobj
@@ -343,7 +346,7 @@ class Env:
         """The program is over: stop recording and keep what the files hold NOW (unwinding open blocks logs more)."""
         self.recording = False
         if getattr(self, "snapshot", None) is None:
-            self.snapshot = {d: f.getvalue() for d, f in self.files.items()}
+            self.snapshot = {d: (f.getvalue() if isinstance(f, io.BytesIO) else f.getvalue().encode("utf-8")) for d, f in self.files.items()}
 
     def collide(self):
         """Occasionally the application uses field names Eliot reserves; Eliot's own values must win."""
@@ -731,7 +734,20 @@ class Runner:
                 extra = {"reason": "from the extractor"}
                 if k in ("E2", "D2"):
                     extra.update({"exception": "bogus.Name", "action_status": "recovered"})
-                register_exception_extractor(cls, lambda e, fld=fld, extra=extra: dict(extra, **{fld: VAL[fld]}))
+                if (env.wit + len(k) + ord(k[-1])) % 2:
+                    register_exception_extractor(cls, lambda e, fld=fld, extra=extra: dict(extra, **{fld: VAL[fld]}))
+                else:
+                    # an extractor that hands out a dictionary it KEEPS (an attribute of the exception, a cache): the library
+                    # may read it, not write its own fields into it
+                    import copy as _copy
+                    kept = dict(extra, **{fld: _copy.deepcopy(VAL[fld])})
+                    pristine = _copy.deepcopy(kept)
+
+                    def keeping(e, kept=kept, pristine=pristine):
+                        if not _same(kept, pristine):
+                            env.pending_why = "extractor_dict_modified"
+                        return kept
+                    register_exception_extractor(cls, keeping)
             elif name == "AddGlobal":
                 env.D.addGlobalFields(**{op["f"]: GLOBALS[op["f"]][op.get("v", 1) - 1]})
             else:
